@@ -39,8 +39,8 @@ CLAIMS = {
     'C11': ('Coq theorems (no-leak + determinism of completed iterations) + sync-hook schedules: stop/deadline after every root move of every iteration',
             'C11_no_leak: the move played is the head of the line of the newest completed iteration that passed both the deadline and the interruption test (else of the depth-1 iteration); C11_*deterministic: a completed iteration does not depend on unconsumed oracle values, so it equals the iteration of `go depth D`.' + CORR,
             TB + 'Schedules place the interruption deterministically through verifSync; wall-clock stops are sampled.', '6/C11'),
-    'C12': ('Coq invariants of a two-thread transition system (every interleaving) + sync-hook schedule lattice + race detector (thorough)',
-            'C12_*: over every reachable state of the command-thread/search-thread LTS at shared-operation granularity: the command thread never blocks, a stop seen by a running search is in the channel until polled, exactly one bestmove per go, isready always answered and transparent, no stale token reaches a later search, bounded work after the stop; the pre-fix protocol is refuted by three concrete schedules.' + CORR,
+    'C12': ('Coq invariants of a two-thread transition system (every interleaving) + work-per-poll/latency theorems on the search model + PROTO state-by-state stream, sync-hook schedule lattice, stop-latency probes, race detector (thorough)',
+            'C12_*: over every reachable state of the command-thread/search-thread LTS at shared-operation granularity: the command thread never blocks, a stop seen by a running search is in the channel until polled, exactly one bestmove per go, isready always answered and transparent, no stale token reaches a later search, bounded work after the stop; the pre-fix protocol is refuted by three concrete schedules. C12lat.v (LatencyProofs): the bound the transition system assumes between polls is proved of the search model: at most 64 node evaluations between two polls of the stop channel (one leftmost capture chain), a latched flag only unwinds, a stop visible at the k-th poll ends the whole go within (k+1+max_depth)*64 evaluations; the quiescence loop as it was before fix 67f3a87 never polled (C12_prefix_quiescence_never_polled). Tie: PROTO stream - random interleavings of commands and search-thread progress with the shared state (running flag, pending stop, bestmoves, readyoks, interruption flag, phase) compared after every step with Protocol.step; stop latency of the real binary on capture-heavy positions.' + CORR,
             TB + 'Partial: sequentially consistent interleaving of shared operations; the Go memory model/scheduler is not modelled (the shared accesses are an atomic.Bool and channel operations; -race run in the thorough tier).', '6/C12'),
     'C13': ('Coq theorems (lia) on the allotment formula + exhaustive boundary-lattice correspondence through the real `go` command',
             'C13_value/mover_clock/bounds/mono_left/mono_inc/anti_mtg/movetime/clock_deadline/parsed_mtg/no_panic hold for ALL integers in the stated range; the model (Uci.v) is executed against the built engine on 462k `go` commands (complete lattice + random/malformed argument lists).' + CORR,
@@ -95,7 +95,7 @@ def main():
         'setup_cmd': './check --setup',
         'hooks': {'guard': 'verif', 'enable': 'go build -tags verif (harness module /verif/harness with replace macsmol/magog => /repo)',
                   'baseline_off_cmd': BASELINE,
-                  'source_commits': ['76199ae', '16d9197', 'e39a3fe', '77c86f9', 'f061b3c'], 'add_only': True},
+                  'source_commits': ['6689093', '76199ae', '16d9197', 'e39a3fe', '77c86f9', 'f061b3c'], 'add_only': True},
         'engines': [{'name': 'coq-model+correspondence', 'path': '/verif/coq', 'serves_properties': sorted(CLAIMS),
                      'kind_free_text': 'Coq 8.16.1 development (model + theorems), extracted OCaml oracle, Go harness (tag verif), Python driver ./check'}],
         'checks': checks,
